@@ -134,7 +134,9 @@ theorem forall_mem_snoc {α : Type} {p : α → Prop} {l : List α} {a : α} (hl
 /-! ### the loop: invariants that need only linearity of `A` -/
 
 /-- what holds of every result of the loop (no assumption on definiteness, symmetry or the preconditioner) -/
-structure BasicPost (S : Sys V K) (c : Ctrl K τ) (out : Out V K τ) : Prop where
+structure BasicPost (S : Sys V K) (c : Ctrl K τ) (ch0 : List (QE V K)) (out : Out V K τ) : Prop where
+  /-- the energies shown to the controller before are still the first ones in the record -/
+  pre : ∃ t, out.checked = ch0 ++ t
   /-- the returned energy object carries the gradient and value of its position -/
   energy : out.energy.Consistent S
   /-- so does every energy object constructed on the way -/
@@ -160,35 +162,101 @@ theorem loop_basic (S : Sys V K) (hA : S.Linear) (c : Ctrl K τ) (nreset : Int) 
     (hE : E.Consistent S) (hr : r = E.grad) (hmd : ∀ E' ∈ md, E'.Consistent S)
     (hch : ch ≠ []) (hfeed : c.feed (ch.map (obs S)) = some (s, .continue_))
     (hits : ∀ it ∈ its, 0 ≤ it.alpha) :
-    BasicPost S c (loop S c nreset fuel E r d pg ii s ch md its) := by
+    BasicPost S c ch (loop S c nreset fuel E r d pg ii s ch md its) := by
   fun_induction loop S c nreset fuel E r d pg ii s ch md its
-  case case1 => exact ⟨hE, hmd, hits, by simp, by simp, by simp, by simp, by simp⟩
-  case case2 => exact ⟨hE, hmd, hits, by simp, by simp, by simp, by simp, by simp⟩
-  case case3 => exact ⟨hE, hmd, hits, by simp, by simp, by simp, by simp, by simp⟩
+  case case1 => exact ⟨⟨[], by simp⟩, hE, hmd, hits, by simp, by simp, by simp, by simp, by simp⟩
+  case case2 => exact ⟨⟨[], by simp⟩, hE, hmd, hits, by simp, by simp, by simp, by simp, by simp⟩
+  case case3 => exact ⟨⟨[], by simp⟩, hE, hmd, hits, by simp, by simp, by simp, by simp, by simp⟩
   case case4 fuel E r d pg ii s ch md its hcurv halpha E' r' ii' hadv it hgam =>
     obtain ⟨hE', hr', _, _⟩ := advance_eq_spec S hA hE hr hadv
-    exact ⟨hE', forall_mem_snoc hmd hE', forall_mem_snoc hits (not_lt.1 halpha), by simp, by simp, by simp, by simp,
-      by simp⟩
+    exact ⟨⟨[], by simp⟩, hE', forall_mem_snoc hmd hE', forall_mem_snoc hits (not_lt.1 halpha), by simp, by simp,
+      by simp, by simp, by simp⟩
   case case5 fuel E r d pg ii s ch md its hcurv halpha E' r' ii' hadv it hgam hgz =>
     obtain ⟨hE', hr', _, _⟩ := advance_eq_spec S hA hE hr hadv
-    refine ⟨hE', forall_mem_snoc hmd hE', forall_mem_snoc hits (not_lt.1 halpha), by simp, by simp, ?_, by simp,
-      by simp⟩
+    refine ⟨⟨[], by simp⟩, hE', forall_mem_snoc hmd hE', forall_mem_snoc hits (not_lt.1 halpha), by simp, by simp,
+      ?_, by simp, by simp⟩
     intro _; rw [← hr']; exact hgz
   case case6 fuel E r d pg ii s ch md its hcurv halpha E' r' ii' hadv it hgam hgz hchk =>
     obtain ⟨hE', hr', _, _⟩ := advance_eq_spec S hA hE hr hadv
-    exact ⟨hE', forall_mem_snoc hmd hE', forall_mem_snoc hits (not_lt.1 halpha), by simp, by simp, by simp, by simp,
-      by simp⟩
+    exact ⟨⟨[E'], rfl⟩, hE', forall_mem_snoc hmd hE', forall_mem_snoc hits (not_lt.1 halpha), by simp, by simp,
+      by simp, by simp, by simp⟩
   case case7 fuel E r d pg ii s ch md its hcurv halpha E' r' ii' hadv it hgam hgz s1 status hchk hst =>
     obtain ⟨hE', hr', _, _⟩ := advance_eq_spec S hA hE hr hadv
-    refine ⟨hE', forall_mem_snoc hmd hE', forall_mem_snoc hits (not_lt.1 halpha), by simp, ?_, by simp, ?_,
-      by simp⟩
+    refine ⟨⟨[E'], rfl⟩, hE', forall_mem_snoc hmd hE', forall_mem_snoc hits (not_lt.1 halpha), by simp, ?_,
+      by simp, ?_, by simp⟩
     · intro he; exact absurd he (check_ne_error hchk)
     · intro _; exact ⟨ch, s, s1, rfl, hch, hfeed, hchk, rfl⟩
   case case8 fuel E r d pg ii s ch md its hcurv halpha E' r' ii' hadv it hgam hgz s1 status hchk hst ih =>
     obtain ⟨hE', hr', _, _⟩ := advance_eq_spec S hA hE hr hadv
     have hst' : status = .continue_ := not_not.1 hst
-    apply ih hE' hr' (forall_mem_snoc hmd hE') (by simp)
-    · rw [feed_map_snoc S c ch hch, hfeed, ← hst']; exact hchk
-    · exact forall_mem_snoc hits (not_lt.1 halpha)
+    have := ih hE' hr' (forall_mem_snoc hmd hE') (by simp)
+      (by rw [feed_map_snoc S c ch hch, hfeed, ← hst']; exact hchk) (forall_mem_snoc hits (not_lt.1 halpha))
+    obtain ⟨t, ht⟩ := this.pre
+    exact { this with pre := ⟨[E'] ++ t, by rw [ht, List.append_assoc]⟩ }
+
+/-- what holds of every result of `ConjugateGradient.__call__` started from a consistent energy object -/
+structure CgPost (S : Sys V K) (c : Ctrl K τ) (E : QE V K) (out : Out V K τ) : Prop where
+  energy : out.energy.Consistent S
+  made : ∀ E' ∈ out.made, E'.Consistent S
+  alpha : ∀ it ∈ out.iters, 0 ≤ it.alpha
+  /-- the first energy shown to the controller is the start energy -/
+  pre : ∃ t, out.checked = E :: t
+  conv : out.status = .converged →
+    out.reason = .ctrlStart ∨ out.reason = .gammaZero0 ∨ out.reason = .gammaZero ∨ out.reason = .ctrlCheck
+  err : out.status = .error →
+    out.reason = .curvZero ∨ out.reason = .alphaNeg ∨ out.reason = .gammaNeg ∨ out.reason = .raised
+  /-- verdict of `controller.start` -/
+  start : out.reason = .ctrlStart → out.energy = E ∧ ∃ s1, c.start (obs S E) = some (s1, out.status) ∧ out.ctrl = some s1
+  gz0 : out.reason = .gammaZero0 → out.energy = E
+  /-- both `gamma == 0` exits: `⟨r, P r⟩ = 0` at the returned energy -/
+  gz : out.reason = .gammaZero0 ∨ out.reason = .gammaZero → S.ip out.energy.grad (precond S out.energy.grad) = 0
+  chk : out.reason = .ctrlCheck → ∃ os s0 s1, out.checked = E :: (os ++ [out.energy]) ∧
+    c.feed ((E :: os).map (obs S)) = some (s0, .continue_) ∧
+    c.check s0 (obs S out.energy) = some (s1, out.status) ∧ out.ctrl = some s1
+
+theorem cg_basic (S : Sys V K) (hA : S.Linear) (c : Ctrl K τ) (nreset : Int) (fuel : Nat) (E : QE V K)
+    (hE : E.Consistent S) : CgPost S c E (cg S c nreset fuel E) := by
+  unfold cg
+  split
+  · exact ⟨hE, by simp, by simp, ⟨[], rfl⟩, by simp, by simp, by simp, by simp, by simp, by simp⟩
+  · rename_i s status hstart
+    split
+    · rename_i hst
+      refine ⟨hE, by simp, by simp, ⟨[], rfl⟩, by simp, ?_, ?_, by simp, by simp, by simp⟩
+      · intro he; exact absurd he (check_ne_error hstart)
+      · intro _; exact ⟨rfl, s, hstart, rfl⟩
+    · rename_i hst
+      have hst' : status = .continue_ := not_not.1 hst
+      subst hst'
+      dsimp only
+      split
+      · rename_i hpg
+        refine ⟨hE, by simp, by simp, ⟨[], rfl⟩, by simp, by simp, by simp, by simp, ?_, by simp⟩
+        intro _; exact hpg
+      · have hb := loop_basic S hA c nreset fuel E E.grad (precond S E.grad) (S.ip E.grad (precond S E.grad)) 0 s
+          [E] [] [] hE rfl (by simp) (by simp) (by simpa [feed_single] using hstart) (by simp)
+        obtain ⟨t, ht⟩ := hb.pre
+        refine ⟨hb.energy, hb.made, hb.alpha, ⟨t, by simpa using ht⟩, ?_, hb.err, ?_, ?_, ?_, ?_⟩
+        · intro h; rcases hb.conv h with h1 | h1
+          · exact Or.inr (Or.inr (Or.inl h1))
+          · exact Or.inr (Or.inr (Or.inr h1))
+        · intro h; exact absurd h hb.noPrologue.1
+        · intro h; exact absurd h hb.noPrologue.2
+        · intro h; rcases h with h | h
+          · exact absurd h hb.noPrologue.2
+          · exact hb.gz h
+        · intro h
+          obtain ⟨pre, s0, s1, h1, h2, h3, h4, h5⟩ := hb.chk h
+          -- `pre` starts with `E`
+          rw [ht] at h1
+          cases pre with
+          | nil => exact absurd rfl h2
+          | cons e0 os =>
+            have he0 : e0 = E := by
+              have := congrArg List.head? h1
+              simp at this; exact this.symm
+            subst he0
+            refine ⟨os, s0, s1, ?_, h3, h4, h5⟩
+            rw [ht, h1]; simp
 
 end NiftyVerif.CgClassic
